@@ -42,7 +42,8 @@ def no_trace(ctx, shape, w, pre, post, r):
 
 # ---- C08 -------------------------------------------------------------------
 
-def no_dangling(ctx, shape, w, pre, post, r):
+def no_dangling(ctx, shape, w, pre, post, r, sig=''):
+    # sig: fingerprint given by the caller (schedule-specific families)
     provs = {}
     for row in post['resource_providers']:
         provs.setdefault(row.vals['id'], []).append(row)
@@ -86,14 +87,14 @@ def no_dangling(ctx, shape, w, pre, post, r):
         obligation(ctx, 'inventory-has-class',
                    _z(And(i.present, Not(_pres(rcs.get(
                        v['resource_class_id'], []))))),
-                   'inventory refers to missing resource class')
+                   'inventory refers to missing resource class', sig=sig)
     for t in post['resource_provider_traits']:
         v = t.vals
         obligation(ctx, 'trait-assoc-ends',
                    _z(And(t.present, Or(
                        Not(_pres(provs.get(v['resource_provider_id'], []))),
                        Not(_pres(traits.get(v['trait_id'], [])))))),
-                   'trait association with a missing end')
+                   'trait association with a missing end', sig=sig)
     for g in post['resource_provider_aggregates']:
         v = g.vals
         obligation(ctx, 'aggregate-assoc-ends',
